@@ -184,12 +184,18 @@ fn object_field(input: &[u8]) -> IResult<&[u8], Cow<'_, str>> {
 fn index(input: &[u8]) -> IResult<&[u8], Index> {
     alt((
         map(i32, Index::Index),
-        map(
+        map_res(
             preceded(
                 tuple((tag_no_case("last"), multispace0, char('-'), multispace0)),
-                i32,
+                i64,
             ),
-            |v| Index::LastIndex(v.saturating_neg()),
+            // the negated offset must fit in i32, `last - 2147483648` is the smallest one.
+            |v| {
+                v.checked_neg()
+                    .and_then(|v| i32::try_from(v).ok())
+                    .map(Index::LastIndex)
+                    .ok_or(Error::InvalidJsonPath)
+            },
         ),
         map(
             preceded(
